@@ -387,12 +387,13 @@ void debug_printdec_signed_long(signed long x)
 }
 void debug_printdec_signed_long_long(signed long long x)
 {
+    uint64_t u = (uint64_t)x;
     if (x < 0)
     {
-        x = -x;
+        u = 0 - u;
         debug_putchar('-');
     }
-    debug_printdec_uint64(x);
+    debug_printdec_uint64(u);
 }
 
 void debug_printdec_unsigned_char(unsigned char x)
